@@ -21,13 +21,15 @@
 //!             first on_ms (they saturate the global bucket, then hand it over); tenant 0's
 //!             threads start after off_ms and call until the end of the run
 //!
-//!   holdgate  the schedule TLC found for RateLimit.tla with Strict = "window", forced on the real limiter
-//!             with the lock-operation gate of the harness' parking_lot (only the `hogs` holder threads
-//!             are gated): tenant 0's bucket is full and the global bucket has just been emptied through
-//!             tenant 1; each holder takes a tenant token, is refused by the global bucket and is stopped
-//!             before the lock of its refund for (hogs + 0.5) / rate seconds; shortly before the end of
-//!             that pause a free caller issues `hogs` calls of tenant 0 (the first refills the bucket to its
-//!             capacity next to the withheld tokens), the holders refund, the free caller issues a burst.
+//!   holdgate  the schedule TLC finds for RateLimit.tla with AtomicTenantGlobal = FALSE, Strict = "window", forced
+//!             on the real limiter with the lock-operation gate of the harness' parking_lot (only the stopped
+//!             callers are gated): tenant 0's bucket is full and the global bucket has just been emptied
+//!             through tenant 1; a caller takes a tenant token, is refused by the global bucket and is stopped
+//!             before its refund for (hogs + 0.5) / rate seconds; shortly before the end of that pause other
+//!             callers issue `hogs` calls of tenant 0, the stopped caller refunds, a burst follows.  Before the
+//!             repair of check_limit (tenant lock released between the steps; all `hogs` holders can be stopped)
+//!             the tenant was admitted `hogs` tokens above its bound; now the tenant bucket stays locked
+//!             across the stop and the row is a regression test that must be accepted.
 //!
 //! One output line per run: the header (effective rate = burst per tenant, global
 //! rate = burst, callers per tenant) and two arrays of [tenant, thread, before_us,
@@ -159,8 +161,12 @@ fn wait_until(base: &Instant, t_ns: u64) {
     }
 }
 
-/// Number of gated lock operations a globally refused `check_limit` performs before the lock of its refund.
-fn ops_before_refund() -> anyhow::Result<usize> {
+/// Where to stop a globally refused `check_limit` between the global refusal and the refund, as a number of
+/// gated lock operations to let pass, and whether the tenant bucket is still locked at that point.
+/// Split protocol (tenant lock released before the global consume): stop in front of the refund's lock.
+/// Nested protocol (global bucket locked while the tenant bucket is held): stop in front of the global unlock
+/// (the refusal has been decided, the refund comes right after that unlock).
+fn ops_before_refund() -> anyhow::Result<(usize, bool)> {
     verif::set_mode(verif::MODE_RECORD);
     let h = std::thread::spawn(|| {
         verif::register(9);
@@ -175,15 +181,28 @@ fn ops_before_refund() -> anyhow::Result<usize> {
     let (first, second, log) = h.join().expect("probe thread");
     verif::set_mode(verif::MODE_OFF);
     anyhow::ensure!(first && !second, "holdgate probe: unexpected verdicts {first} {second}");
-    let req: Vec<u8> = log.iter().filter(|e| e.tid == 9 && !e.done && e.op != 255).map(|e| e.op).collect();
-    let k = req.iter().rposition(|&op| op == verif::MX).ok_or_else(|| anyhow::anyhow!("holdgate probe: no mutex operation logged"))?;
-    anyhow::ensure!(k >= 3, "holdgate probe: refund lock is operation {k} of {:?}", req);
-    Ok(k)
+    let req: Vec<(u8, usize)> = log.iter().filter(|e| e.tid == 9 && !e.done && e.op != 255).map(|e| (e.op, e.addr)).collect();
+    let m = req.iter().rposition(|&(op, _)| op == verif::MX).ok_or_else(|| anyhow::anyhow!("holdgate probe: no mutex operation logged"))?;
+    let mut held: Vec<usize> = Vec::new();
+    for &(op, addr) in &req[..m] {
+        if op == verif::MX {
+            held.push(addr);
+        } else if op == verif::REL_MX {
+            held.retain(|a| *a != addr);
+        }
+    }
+    let nested = !held.is_empty();
+    let k = if nested { m + 1 } else { m };
+    anyhow::ensure!(k >= 3 && k < req.len(), "holdgate probe: stop point {k} of {:?}", req);
+    Ok((k, nested))
 }
 
 fn run_holdgate(row: &Row) -> anyhow::Result<Value> {
-    let k = ops_before_refund()?;
+    let (k, nested) = ops_before_refund()?;
     let holders = row.hogs.max(1);
+    // with the tenant bucket locked across the stop only one caller of the tenant can be stopped there;
+    // the other holders are ordinary concurrent callers (they wait for the bucket's mutex)
+    let gated = if nested { 1 } else { holders };
     for _attempt in 0..4 {
         let (limiter, eff, global) = make_limiter(row);
         anyhow::ensure!(eff.len() == 2 && global.is_some(), "holdgate needs two tenants and a global limit");
@@ -211,7 +230,7 @@ fn run_holdgate(row: &Row) -> anyhow::Result<Value> {
         std::thread::sleep(Duration::from_nanos(1_500_000_000 / rate.max(1)) + Duration::from_millis(5));
         // gate: holder i passes k lock operations, then waits for the timer thread's single operation
         let mut sched = Vec::new();
-        for i in 0..holders {
+        for i in 0..gated {
             for _ in 0..k {
                 sched.push(verif::Grant { tid: 10 + i as u32, blocks: false });
             }
@@ -249,7 +268,9 @@ fn run_holdgate(row: &Row) -> anyhow::Result<Value> {
                         std::hint::spin_loop();
                     }
                 }
-                verif::register(10 + i as u32);
+                if i < gated {
+                    verif::register(10 + i as u32);
+                }
                 let b = base.elapsed().as_nanos() as u64;
                 let ok = limiter.check_limit(&names[0], eff[0]);
                 let a = base.elapsed().as_nanos() as u64;
@@ -289,7 +310,9 @@ fn run_holdgate(row: &Row) -> anyhow::Result<Value> {
                 if r.adm {
                     recs.push((2 + i, r));
                 } else {
-                    refused_holders += 1;
+                    if i < gated {
+                        refused_holders += 1;
+                    }
                     sample.push((2 + i, r));
                 }
             }
@@ -303,7 +326,7 @@ fn run_holdgate(row: &Row) -> anyhow::Result<Value> {
         verif::set_mode(verif::MODE_OFF);
         let _ = ctl.join();
         let _ = verif::take_log();
-        if !in_hold || refused_holders != holders {
+        if !in_hold || refused_holders != gated {
             continue; // a global token slipped in before a holder's global consume: not the schedule we want
         }
         let mut adm: Vec<(u64, u64, u32, usize)> = recs.iter().map(|(th, r)| (r.a / 1000 + 1, r.b / 1000, r.tenant + 1, *th)).collect();
@@ -314,7 +337,7 @@ fn run_holdgate(row: &Row) -> anyhow::Result<Value> {
             "run": row.run, "rate": *eff, "burst": *eff, "grate": global.unwrap_or(0), "gburst": global.unwrap_or(0),
             "conc": [holders + 1, 1], "nt": 2, "threads": holders + 1, "pattern": row.pattern, "server": row.server,
             "calls": calls, "refused": calls - adm.len() as u64, "tokens_end": [Value::Null, Value::Null],
-            "gate": {"ops_before_refund": k, "hold_us": hold.as_micros() as u64, "holders_refused": refused_holders},
+            "gate": {"ops_before_stop": k, "tenant_locked_at_stop": nested, "hold_us": hold.as_micros() as u64, "stopped_callers_refused": refused_holders},
             "adm": enc(&adm), "ref": Vec::<Value>::new(),
         }));
     }
